@@ -302,11 +302,14 @@ def run(tier, seed):
     cfgs = ["PipelineMC_quick.cfg", "PipelineMC_n3.cfg", "PipelineMC_n3v2.cfg"]
     if thorough:
         cfgs += ["PipelineMC_n4free.cfg", "PipelineMC_n5.cfg", "PipelineMC_n4v2.cfg"]
+    if os.environ.get("VERIF_SKIP_MC"):      # mutation experiments only: the design check does not depend on the code
+        cfgs = []
+        o.notes.append("design check skipped (VERIF_SKIP_MC)")
     for cfg in cfgs:
         r = vlib.tlc(PID, FAMILY, "PipelineMC", cfg, timeout=1700)
         vlib.require_mc_ok(r, cfg)
         o.add_mc(cfg[:-4], r)
-    for cfg, inv, what in CONTROLS:
+    for cfg, inv, what in ([] if os.environ.get("VERIF_SKIP_MC") else CONTROLS):
         r = vlib.tlc(PID, FAMILY, "PipelineMC", cfg, timeout=600)
         if r.violation != inv:
             raise vlib.Infra("design-spec control failed: '%s' not caught by %s: %s" % (what, inv, r.summary()))
@@ -326,7 +329,7 @@ def run(tier, seed):
     cfg = trace_cfg_of(tr[0])
     muts = mutators()
     vlib.binding_selftest(o, FAMILY, "PipelineTrace", cfg, tr, muts)
-    if len(o.selftests) < len(CONTROLS) + len(muts) and not o.violations:
+    if len(o.selftests) < (0 if os.environ.get("VERIF_SKIP_MC") else len(CONTROLS)) + len(muts) and not o.violations:
         raise vlib.Infra("binding self-test: some negative control found no applicable trace")
     nem = 0
     for tag in ("tlcgen", "random"):
